@@ -24,9 +24,11 @@ were ever created (the 28-bit internal session id has not wrapped).
   point of an infinite run each sweeper is polled before `poll` more milliseconds have passed) and
   time divergence: a message nobody owns (no live `Exchange` ever claims it) has left the RX slot by
   `max (now, arrival + ACCEPT_TIMEOUT_MS) + pollAccept + pollOrphan`.
-* `closer_acts_when_dropped`, `dropped_exchange_closed`: in every reachable state with a dropped
-  exchange the closer does something; what it does: frees that slot (writing the standalone ack iff one
-  is owed) or closes the session (iff a retransmission is pending); no other exchange becomes dropped.
+* `closer_acts_when_dropped`, `dropped_exchange_closed`, `closer_progress`, `closer_drains_all`: in every
+  reachable state with a dropped exchange the closer does something; what it does: frees that slot
+  (writing the standalone ack iff one is owed) or closes the session (iff a retransmission is pending);
+  no other exchange becomes dropped; each such run reduces the number of dropped exchanges, so after
+  that many runs none is left.
 * `other_exchanges_progress`: with the slot free, a fresh message for ANY owned exchange that is not
   waiting for an acknowledgement is kept for it and its `recv` returns it — whatever state the other
   exchanges of the node are in.
@@ -630,6 +632,17 @@ theorem dropped_exchange_closed {n : Node} (hr : Reach n) :
     CloserSpec n.t (step n .closer).1.t (n.t.sweepDropped n.now).2 :=
   closer_effect (inv_reach hr).tinv n.now
 
+/-- **Every dropped exchange is eventually closed**: each run of the closer that finds a dropped
+exchange reduces their number (`closer_decreases`), so after as many runs as there are dropped
+exchanges (and no new drops in between) none is left. -/
+theorem closer_drains_all {n : Node} (hr : Reach n) :
+    ∀ uid i, ¬ DroppedAt (closerRuns (droppedCount n.t) n).t uid i :=
+  (droppedCount_zero_iff _).1 (closer_drains _ n (inv_reach hr) (Nat.le_refl _))
+
+theorem closer_progress {n : Node} (hr : Reach n) (hpos : 0 < droppedCount n.t) :
+    droppedCount (step n .closer).1.t < droppedCount n.t :=
+  closer_decreases (inv_reach hr).tinv n.now hpos
+
 /-! ## Traffic of the other exchanges keeps flowing -/
 
 /-- **Other exchanges progress** (every reachable state with a free RX slot — which
@@ -716,6 +729,12 @@ pending (and waits for the closer), session 1's owned exchange still gets its me
 example : (run {} [.arrive exMa 100, .accept, .recv 0 0, .arrive exMb 200, .accept, .recv 1 0, .dropEx 0 0,
       .arrive { exMb with ctr := 10, kind := .other } 0, .recv 1 0]).2.drop 6 =
     [.ok, .kept 1 0 false, .delivered 1 0 { exMb with ctr := 10, kind := .other }] := by decide
+
+/-- non-vacuity: two dropped exchanges (one owes an ack, one nothing), two closer runs, none left -/
+example :
+    let n := (run {} [.arrive exMa 100, .accept, .recv 0 0, .dropEx 0 0,
+                      .arrive { exMb with reliable := false } 200, .tick 1000, .sweepAccept]).1
+    droppedCount n.t = 2 ∧ droppedCount (closerRuns 2 n).t = 0 := by decide
 
 /-! ### a fair infinite run with an unclaimed message -/
 
